@@ -15,6 +15,13 @@ def main():
         for f, (ok, out) in zip(mods, ex.map(lambda f: core.sany(d / f.name), mods)):
             if not ok:
                 bad.append((f.name, out[-2000:]))
+    # a JVM that fails to start on a loaded machine is not a syntax error: retry once, sequentially
+    still = []
+    for name, out in bad:
+        ok, out2 = core.sany(d / name)
+        if not ok:
+            still.append((name, out2[-2000:]))
+    bad = still
     for name, out in bad:
         print(f"SANY FAILED: {name}\n{out}")
     print(f"setup: {len(mods)} TLA+ modules parsed, {len(bad)} failed")
